@@ -48,6 +48,21 @@ impl Arena {
             match std::panic::catch_unwind(std::panic::AssertUnwindSafe(|| solver::min_cost_flow_solver::MinCostFlowSolver::initialize(nw).solve())) {
                 Ok(start) => {
                     a.inits.push(("min_cost_flow", start.clone()));
+                    // the flow start with every vehicle turned into a dummy: dummy tours with several activities
+                    match std::panic::catch_unwind(std::panic::AssertUnwindSafe(|| {
+                        let mut s = start.clone();
+                        let vs: Vec<_> = s.vehicles_iter_all().collect();
+                        for v in vs {
+                            s = s.replace_vehicle_by_dummy(v).expect("replace_vehicle_by_dummy of a real vehicle");
+                        }
+                        s
+                    })) {
+                        Ok(all_dummies) => a.inits.push(("min_cost_flow-all-vehicles-made-dummies", all_dummies)),
+                        Err(_) => {
+                            let (site, msg) = crate::pool::take_last_panic().unwrap_or(("?".into(), "?".into()));
+                            a.init_failures.push(("replace_vehicle_by_dummy on every vehicle of the min-cost-flow start solution".into(), site, msg));
+                        }
+                    }
                     match std::panic::catch_unwind(std::panic::AssertUnwindSafe(|| start.improve_depots(None))) {
                         Ok(improved) => a.inits.push(("min_cost_flow+improve_depots", improved)),
                         Err(_) => {
